@@ -201,5 +201,28 @@ UNIT = VUnit(
                         Rw("R11b", r"args\.args\.len\(\)", "args.len()", min_matches=0),
                         Rw("R9", r"self\.expect_member_(string|number)_arg\(field, args\.args\[(\d)\], \*span\);", r"if expect_member_\1_arg(args.ty_of(\2)) { err = true; }", min_matches=3)],
               real_name="Resolver::check_expr (member call: argument typing rule)"),
+        # conditions: a statically typed condition is rejected exactly when it can never be a boolean or null
+        Fn("check_boolean_expr", impl="impl Resolver",
+           sig="fn check_boolean_expr(expr_type: Option<ValueType>) -> (err: bool)",
+           expect_sig=r"fn check_boolean_expr\(&mut self, expr: ExprRef<'ast>\)",
+           ensures=["err == (expr_type is Some && !boolish(expr_type->Some_0) && !dynamic(expr_type->Some_0))"],
+           rewrites=[Rw("R11b", r"let expr_type = self\.infer_expr_type\(expr\);", "let mut err = false;"),
+                     Rw("R10", r"if let Some\(t\) = expr_type\s*&& ([^{]+?)\s*\{(.*)\n        \}", r"if let Some(t) = expr_type { if \1 {\2\n        } }\n        err"),
+                     Rw("R6", r"let span = match expr \{.*?\};", ""),
+                     Rw("R6", r"self\.emit_error\(\s*span,.*?\}\],\s*\);?", "{ err = true; }", min_matches=1)],
+           vacuity="-", real_name="Resolver::check_boolean_expr (if / jasi conditions)"),
+        # indexing: the receiver must be able to be an array and the index a number
+        Block("index_operand_rule", within="check_expr", impl="impl Resolver",
+              anchor=r"Expr::Index \{ array, index, index_span, span \} =>",
+              sig="fn index_operand_rule(array_ty: Option<ValueType>, index_ty: Option<ValueType>) -> (errs: (bool, bool))",
+              prologue="    let mut err_a = false;\n    let mut err_i = false;", epilogue="    (err_a, err_i)",
+              ensures=["array_ty is Some ==> errs.0 == !(array_ty->Some_0 == ValueType::Array || dynamic(array_ty->Some_0))",
+                       "index_ty is Some ==> errs.1 == !(is_num(index_ty->Some_0) || dynamic(index_ty->Some_0))"],
+              rewrites=[Rw("R11b", r"self\.check_expr\(array\);\s*self\.check_expr\(index\);", ""),
+                        Rw("R11b", r"let array_ty = self\.infer_expr_type\(array\);", ""),
+                        Rw("R11b", r"let index_ty = self\.infer_expr_type\(index\);", ""),
+                        Rw("R6", r"self\.emit_error\(\s*\*span,.*?\}\],\s*\);?", "{ err_a = true; }", min_matches=1),
+                        Rw("R6", r"self\.emit_error\(\s*\*index_span,.*?\}\],\s*\);?", "{ err_i = true; }", min_matches=1)],
+              real_name="Resolver::check_expr (Expr::Index arm: operand typing rule)"),
     ],
 )
